@@ -667,7 +667,8 @@ def run(rep):
         'distinct_nontrivial': len(nontriv),
         'rule': 'bounded-exhaustive trees (<= 2 rules per block, one nesting level, label/move x none/pass/break, negation) with all '
                 'valuations (%d cases%s) + %d random trees x 3 messages (every operator, attachment conditions and blocks, command/'
-                'isdirectory/date/body/header atoms, errors, interpolation templates, pass/break also in unusual places) + %d finding '
+                'isdirectory/date/body/header atoms, errors, interpolation templates, pass/break also in unusual places; 30%% of the messages '
+                'multipart, 12%% of those with a boundary out of an RFC 2047 encoded word - newline, CR, "--" - between delimiter look-alikes) + %d finding '
                 'witnesses; each evaluated by the real parser + expr_eval + matches_interpolate and compared with the Lean model '
                 '(exact match list) and, inside the specification domain, with the documented rule semantics; non-trivial = a tree of '
                 '>= 2 rules that matched; distinct by (config, message)' % (nsmall, ', sampled' if nsmall >= limit else ', complete', nrand, count['wit']),
